@@ -212,7 +212,8 @@ class FetchAttribute(Parseable[bytes]):
                 if self.section.headers:
                     headers = self.section.headers
                     parts.append(b' ')
-                    parts.append(bytes(List(headers, sort=True)))
+                    parts.append(bytes(List(
+                        [AString(hdr) for hdr in sorted(headers)])))
             parts.append(b']')
         if self.partial:
             start, length = (self.partial.start, self.partial.length)
@@ -262,7 +263,7 @@ class FetchAttribute(Parseable[bytes]):
         elif specifier in (b'HEADER.FIELDS', b'HEADER.FIELDS.NOT'):
             params = params.copy(expected=[AString])
             header_list_p, buf = List.parse(after, params)
-            header_list = frozenset([bytes(hdr)
+            header_list = frozenset([hdr.value
                                      for hdr in header_list_p.value])
             if not header_list:
                 raise NotParseable(after)
